@@ -84,13 +84,14 @@ def g_stmt(s):
 # ---------------------------------------------------------------------------
 class Opts:
     def __init__(self, kw_case="upper", id_case="lower", use_as=True, rename=None, qualify=None, quote=None,
-                 noise=None, trailing=";"):
+                 noise=None, trailing=";", fun4=False):
         self.kw_case, self.id_case, self.use_as = kw_case, id_case, use_as
         self.rename = rename or {}          # statement-local names (aliases, CTE names) -> new names
         self.qualify = qualify              # schema to write in front of unqualified table names
         self.quote = quote                  # (open, close) to quote (lower-case) identifiers
         self.noise = noise                  # callable(index) -> separator string
         self.trailing = trailing
+        self.fun4 = fun4                    # print coalesce(a, b) as coalesce(a, b, a, b)
 
     def kw(self, w):
         if self.kw_case == "upper": return w.upper()
@@ -119,7 +120,11 @@ def t_expr(e, o, ctes):
         return [("id", o.local(e[1]) + "." + o.ident(e[2]))] if "." not in e[1] else \
                [("id", ".".join(o.ident(p) for p in e[1].split(".")) + "." + o.ident(e[2]))]
     if k == "lit": return [("lit", "1")]
-    if k == "fun": return [("id", o.kw("coalesce")), ("sym", "(")] + t_expr(e[1], o, ctes) + [("sym", ",")] + t_expr(e[2], o, ctes) + [("sym", ")")]
+    if k == "fun":
+        args = t_expr(e[1], o, ctes) + [("sym", ",")] + t_expr(e[2], o, ctes)
+        if o.fun4:
+            args = args + [("sym", ",")] + args
+        return [("id", o.kw("coalesce")), ("sym", "(")] + args + [("sym", ")")]
     if k == "bin": return t_expr(e[1], o, ctes) + [("sym", "+")] + t_expr(e[2], o, ctes)
     if k == "case":
         return [("kw", o.kw("case")), ("kw", o.kw("when"))] + t_expr(e[1], o, ctes) + [("sym", ">"), ("lit", "0"), ("kw", o.kw("then"))] + \
@@ -222,7 +227,7 @@ def to_sql(s, o=None) -> str:
 # ---------------------------------------------------------------------------
 TABLES = [("s1", "t1"), ("s1", "t2"), ("s2", "t3"), ("s2", "t1"), (None, "t4"), (None, "t5"), ("db1.s4", "t6")]
 TARGETS = [("s3", "out1"), (None, "out2")]
-COLS = ["k", "x", "y", "z"]
+COLS = ["ck", "cx", "cy", "cz"]      # keyword-free under every dialect (a bare y is a date part in snowflake)
 ALIASES = ["p", "q", "r", "u", "v", "w"] + ["a%d" % i for i in range(1, 40)]
 
 
@@ -296,7 +301,7 @@ def gen_select(r, depth, ctes, n_items=None, allow_star=True, used_tables=None, 
     if star_ok and r.random() < 0.15:
         items, names = [istar(None)], None
     else:
-        pool = [c for c in COLS + ["m", "n"]]
+        pool = [c for c in COLS + ["cm", "cn"]]
         for j in range(n_items):
             e = gen_expr(r, refs, r.choice([0, 0, 1, 2, 3]))
             if e[0] == "col" and r.random() < 0.5 and e[2] not in names:
@@ -339,7 +344,7 @@ def gen_stmt(r, depth=2):
     tgt = r.choice([t for t in TARGETS])
     if k == "insertcols" and names is not None:
         # column lists reuse select-item names in another order (the list wins by position, never by name)
-        cl = r.sample(COLS + ["m", "n"], len(names)) if r.random() < 0.6 else ["c%d" % i for i in range(len(names))]
+        cl = r.sample(COLS + ["cm", "cn"], len(names)) if r.random() < 0.6 else ["c%d" % i for i in range(len(names))]
         return ("insert", tgt, cl, q)
     if k in ("insert", "insertcols"):
         return ("insert", tgt, None, q)
